@@ -234,16 +234,15 @@ func (st *ShareState) SlashRedelegationsAsImplementedAmb(groups []*redelGroup, f
 		if os.Getenv("VERIF_C07_DEBUG") != "" {
 			fmt.Fprintf(os.Stderr, "C07DEBUG redel-slash %s: balance=%s f=%s t=%s K=%s D=%s s=%s x=%s diff=%s\n", p, g.Balance, rstr(f), rstr(t), rstr(K), rstr(D), rstr(s), rstr(x), rstr(diff))
 		}
-		// the removed delegation shares were worth floor(x/D x K + 0.01) tokens; validator shares of that worth leave
-		// the destination validator and the asset's total (capped at what the validator holds)
+		// the same fraction x/D of the destination validator's validator shares leaves it and the asset's total
 		if D.Sign() > 0 {
-			tau := new(big.Rat).SetInt(rfloor(radd(rmul(rquo(x, D), K), ratCent)))
-			if T := st.T[g.Denom]; T.Sign() > 0 && tau.Sign() > 0 {
-				vs := rmul(tau, rquo(st.S[g.Denom], T))
-				if held := getRR(st.VS, g.Dst, g.Denom); vs.Cmp(held) > 0 {
-					vs = held
-				}
-				setRR(st.VS, g.Dst, g.Denom, rsub(getRR(st.VS, g.Dst, g.Denom), vs))
+			held := getRR(st.VS, g.Dst, g.Denom)
+			vs := rmul(held, rquo(x, D))
+			if vs.Cmp(held) > 0 {
+				vs = held
+			}
+			if vs.Sign() > 0 {
+				setRR(st.VS, g.Dst, g.Denom, rsub(held, vs))
 				st.S[g.Denom] = rsub(st.S[g.Denom], vs)
 			}
 		}
